@@ -88,7 +88,7 @@ def enumerate_programs(tier, seed):
     out = []
     for p in progs:
         k = repr(p)
-        if k not in seen and not has_x_free(p):
+        if k not in seen and not has_x_free(p) and valid(p):
             seen.add(k)
             out.append(p)
     if tier == "quick":
@@ -229,3 +229,33 @@ def to_next(t):
     if isinstance(t, list):
         return [to_next(x) for x in t]
     return t
+
+
+def no_walrus(t):
+    n = t["n"]
+    if n in ("T", "B", "X", "null"):
+        return True
+    if n == "W":
+        return False
+    if n == "C":
+        return no_walrus(t["arg"]) and no_walrus(t["kw"])
+    if n in ("Add", "And", "Or"):
+        return no_walrus(t["a"]) and no_walrus(t["b"])
+    if n == "If":
+        return all(no_walrus(t[k]) for k in ("c", "a", "b"))
+    if n == "LC":
+        return all(no_walrus(i) for i in t["items"]) and no_walrus(t["elt"]) and no_walrus(t["cond"])
+    if n in ("Lam", "Def"):
+        return no_walrus(t["arg"])
+    if n == "F":
+        return no_walrus(t["a"])
+    return False
+
+
+def valid(t):
+    """Python's own restriction: no assignment expression inside a comprehension iterable"""
+    if not isinstance(t, dict):
+        return True
+    if t.get("n") == "LC" and not all(no_walrus(i) for i in t["items"]):
+        return False
+    return all(valid(v) if isinstance(v, dict) else all(valid(x) for x in v) if isinstance(v, list) else True for v in t.values())
